@@ -26,12 +26,10 @@ def has_leb(t):
 
 
 def pending(res, tree) -> bool:
-    """definitions in the territory of a pending finding are not evaluated"""
+    """no definition is skipped any more: a union of anonymous structures with a nested anonymous member (found by these probes)
+    is known finding F44 and is classified by its signature (structprops.Engine.sigs)"""
     if union_anon_nested(tree):
-        if False:  # PENDING-FINDING: union of anonymous structures with a nested anonymous member loses that member's fields on dump
-            return False  # (see structprops.union_anon_nested for the reproduction)
-        res.feat("skipped definition (pending finding: nested anonymous member in an all-anonymous union)")
-        return True
+        res.feat("definition in the territory of known finding F44 (nested anonymous member in an all-anonymous union)")
     return False
 
 
